@@ -33,7 +33,10 @@ static int NAME(int argc, char **argv, FILE *o) { \
     uint64_t ic; buf_t m, n, k; unsigned char *c; \
     if (get4(argc, argv, &m, &n, &ic, &k, NL)) return -1; \
     c = (unsigned char *) malloc(m.n ? m.n : 1); memset(c, 0x5c, m.n); \
-    FN(c, m.p, m.n, n.p, (ICT) ic, k.p); hx_put_hex(o, c, m.n); free(c); hx_free(&m); hx_free(&n); hx_free(&k); return 0; }
+    FN(c, m.p, m.n, n.p, (ICT) ic, k.p); \
+    { unsigned char *ip = (unsigned char *) malloc(m.n ? m.n : 1); memcpy(ip, m.p, m.n); FN(ip, ip, m.n, n.p, (ICT) ic, k.p); /* the XOR forms may be used in place */ \
+      if (memcmp(ip, c, m.n)) fputs("INPLACE-DIFFERS ", o); free(ip); } \
+    hx_put_hex(o, c, m.n); free(c); hx_free(&m); hx_free(&n); hx_free(&k); return 0; }
 XORIC_OP(op_chacha20_xor_ic, crypto_stream_chacha20_xor_ic, 8, uint64_t)
 XORIC_OP(op_xchacha20_xor_ic, crypto_stream_xchacha20_xor_ic, 24, uint64_t)
 XORIC_OP(op_salsa20_xor_ic, crypto_stream_salsa20_xor_ic, 8, uint64_t)
@@ -81,7 +84,10 @@ static int NAME(int argc, char **argv, FILE *o) { \
     if (hx_hex(argv[2], &k)) { hx_free(&m); hx_free(&n); return -1; } \
     if (n.n != 8 || k.n != 32) { hx_free(&m); hx_free(&n); hx_free(&k); return -1; } \
     c = (unsigned char *) malloc(m.n ? m.n : 1); memset(c, 0x5c, m.n); \
-    FN(c, m.p, m.n, n.p, k.p); hx_put_hex(o, c, m.n); free(c); hx_free(&m); hx_free(&n); hx_free(&k); return 0; }
+    FN(c, m.p, m.n, n.p, k.p); \
+    { unsigned char *ip = (unsigned char *) malloc(m.n ? m.n : 1); memcpy(ip, m.p, m.n); FN(ip, ip, m.n, n.p, k.p); \
+      if (memcmp(ip, c, m.n)) fputs("INPLACE-DIFFERS ", o); free(ip); } \
+    hx_put_hex(o, c, m.n); free(c); hx_free(&m); hx_free(&n); hx_free(&k); return 0; }
 XOR_OP(op_salsa2012_xor, crypto_stream_salsa2012_xor)
 XOR_OP(op_salsa208_xor, crypto_stream_salsa208_xor)
 
